@@ -75,6 +75,10 @@ def spec_after(cfg, path):
     return sp
 
 
+def _fl(v):
+    return v if str(v).startswith('EXC') else float.fromhex(v)
+
+
 def step_oracle(cfg, path, ob, fp, par, fails):
     """one step parent --op--> node"""
     op = path[-1]
@@ -86,9 +90,12 @@ def step_oracle(cfg, path, ob, fp, par, fails):
         ch = [k for k in STATE + DERIVED if fp[k] != par[k]]
         st = sorted({GROUP[k] for k in ch if k in STATE})
         de = sorted({GROUP[k] for k in ch if k in DERIVED})
+        ba = {k: (par[k], fp[k]) for k in ch[:4]}
+        if 'cost' in ch:       # show the values: each metric as read FIRST on a copy of the model before / after the call
+            ba['cost'] = ({k: _fl(v) for k, v in par['costs'].items()}, {k: _fl(v) for k, v in fp['costs'].items()})
         for g in (st or de):
             fails.append(('%s-changes-%s:%s' % (opn, g, tag), dict(info, changed=ch),
-                          '%s on %s after %s changed %s of the NAS model (before -> after: %s)' % (op, cfg_name(cfg), list(path[:-1]), ch, {k: (par[k], fp[k]) for k in ch[:4]})))
+                          '%s on %s after %s changed %s of the NAS model (before -> after: %s)' % (op, cfg_name(cfg), list(path[:-1]), ch, ba)))
         # the observer's own result = what the probe on a copy reported before the call
         exp = None
         if op in ('export', 'export_nobn') and not str(ob).startswith('EXC:'):
@@ -332,6 +339,8 @@ def replay(r):
         if is_obs(op):
             ch = [k for k in STATE + DERIVED if fp[k] != par[k]]
             print('step %d %-18s -> %-16s changed: %s' % (i + 1, op, str(res['obs'][i])[:16], ch or 'nothing'))
+            if 'cost' in ch:
+                print('        cost values (each read first on a copy) before: %s  after: %s' % ({k: _fl(v) for k, v in par['costs'].items()}, {k: _fl(v) for k, v in fp['costs'].items()}))
             bad += bool(ch)
         else:
             print('step %d %-18s -> %-16s (not an observer)' % (i + 1, op, str(res['obs'][i])[:16]))
